@@ -52,6 +52,8 @@ class Structure:
     rebind: Optional[ast.AST] = None
     final_return: Optional[ast.Return] = None
     pre_mutations: List[ast.AST] = field(default_factory=list)
+    inits: List[Tuple[ast.Assign, List[str], Optional[str], bool, Optional[str]]] = field(default_factory=list)
+    # (assignment, chain, key function, reverse, guard description) for every initialisation path of the working list
 
 
 def collection_chain(e: ast.expr, param: str) -> Optional[Tuple[List[str], Optional[ast.Call]]]:
@@ -135,7 +137,34 @@ def extract_structure(sources: core.Sources) -> Structure:
         st.problems.append((f"statement `{core.src(s)[:60]}` in the pass is not part of the modelled shape", s))
     # working-list initialisation before the loop
     pre = body[:body.index(st.outer)]
-    for s in pre:
+    flat: List[Tuple[ast.stmt, Optional[str]]] = []
+
+    def flatten(stmts, guard):
+        for x in stmts:
+            if isinstance(x, ast.If) and any(isinstance(n, ast.Assign) and any(isinstance(t, ast.Name) and t.id == st.W for t in n.targets) for n in ast.walk(x)):
+                g = core.src(x.test)
+                flatten(x.body, g if guard is None else f"{guard} and {g}")
+                flatten(x.orelse, f"not ({g})" if guard is None else f"{guard} and not ({g})")
+            else:
+                flat.append((x, guard))
+    flatten(pre, None)
+    for s, guard in flat:
+        if isinstance(s, ast.Assign) and len(s.targets) == 1 and isinstance(s.targets[0], ast.Name) and s.targets[0].id == st.W:
+            ch0 = collection_chain(s.value, st.param)
+            if ch0 is not None:
+                kf, rev = None, False
+                if ch0[1] is not None:
+                    for k in ch0[1].keywords:
+                        if k.arg == "key" and isinstance(k.value, ast.Name):
+                            kf = k.value.id
+                        elif k.arg == "reverse":
+                            rev = not (isinstance(k.value, ast.Constant) and k.value.value is False)
+                st.inits.append((s, ch0[0], kf, rev, guard))
+            else:
+                st.inits.append((s, ["?"], None, False, guard))
+    for s, guard in flat:
+        if guard is not None:
+            continue
         if isinstance(s, ast.Assign) and len(s.targets) == 1 and isinstance(s.targets[0], ast.Name) and s.targets[0].id == st.W:
             ch = collection_chain(s.value, st.param)
             if ch is not None:
@@ -160,6 +189,10 @@ def extract_structure(sources: core.Sources) -> Structure:
     rets = [s for s in post if isinstance(s, ast.Return)]
     if len(rets) == 1 and isinstance(rets[0].value, ast.Name):
         st.final_return = rets[0]
+    if st.init is None and st.inits:
+        st.init = st.inits[0][0]
+        st.chain = st.inits[0][1]
+        st.key_fn = st.inits[0][2]
     st.ok = all([st.flag, st.inner, st.idx, st.W, st.result, st.init is not None])
     return st
 
@@ -235,9 +268,91 @@ class BodyPath:
     signal: Any
     effects: List[Tuple[str, Any]]
     notes: List[str]
+    carried: Dict[str, Any] = field(default_factory=dict)
 
 
-def run_body(interp: Interp, st: Structure, sib_or_cell: Lin, r_hint: int) -> List[BodyPath]:
+def carried_variables(st: Structure) -> List[str]:
+    """variables of the scan body that may be read before they are (definitely) assigned in the same iteration, i.e. whose
+    value can come from an earlier iteration (other than the index, the result list, the flag and the working list)"""
+    special = {st.idx, st.result, st.flag, st.W, st.param}
+    carried: List[str] = []
+
+    def expr_reads(e: ast.AST) -> List[str]:
+        return [n.id for n in ast.walk(e) if isinstance(n, ast.Name) and isinstance(n.ctx, ast.Load)]
+
+    def block(stmts, assigned: set) -> set:
+        for s_ in stmts:
+            if isinstance(s_, ast.If):
+                for nm in expr_reads(s_.test):
+                    note(nm, assigned)
+                a = block(s_.body, set(assigned))
+                b = block(s_.orelse, set(assigned))
+                assigned = a & b
+            elif isinstance(s_, (ast.For, ast.While)):
+                for nm in expr_reads(s_.iter if isinstance(s_, ast.For) else s_.test):
+                    note(nm, assigned)
+                inner = set(assigned)
+                if isinstance(s_, ast.For):
+                    inner |= {n.id for n in ast.walk(s_.target) if isinstance(n, ast.Name)}
+                block(s_.body, inner)
+            elif isinstance(s_, ast.Assign):
+                for nm in expr_reads(s_.value):
+                    note(nm, assigned)
+                for t in s_.targets:
+                    for n in ast.walk(t):
+                        if isinstance(n, ast.Name) and isinstance(n.ctx, ast.Store):
+                            assigned.add(n.id)
+                        elif isinstance(n, ast.Name):
+                            note(n.id, assigned)
+            elif isinstance(s_, ast.AugAssign):
+                for nm in expr_reads(s_.value) + expr_reads(s_.target) + ([s_.target.id] if isinstance(s_.target, ast.Name) else []):
+                    note(nm, assigned)
+                if isinstance(s_.target, ast.Name):
+                    assigned.add(s_.target.id)
+            else:
+                for child in ast.walk(s_):
+                    if isinstance(child, ast.Name) and isinstance(child.ctx, ast.Load):
+                        note(child.id, assigned)
+        return assigned
+
+    body_assigned = {n.id for b in st.inner.body for n in ast.walk(b) if isinstance(n, ast.Name) and isinstance(n.ctx, ast.Store)}
+
+    def note(nm: str, assigned: set):
+        if nm in body_assigned and nm not in assigned and nm not in special and nm not in carried:
+            carried.append(nm)
+    block(st.inner.body, set())
+    return carried
+
+
+def initial_carried(interp: Interp, st: Structure, names: List[str]) -> Dict[str, Any]:
+    """values of the carried variables when the first iteration of a pass starts (assignments before / at the top of the pass)"""
+    vals: Dict[str, Any] = {}
+    state = State()
+    state.frames = [dict(interp.module_env(COMPACT))]
+    body = [s for s in st.fn.body if not (isinstance(s, ast.Expr) and isinstance(s.value, ast.Constant))]
+    pre = body[:body.index(st.outer)] + [s for s in st.outer.body if s is not st.inner and st.outer.body.index(s) < st.outer.body.index(st.inner)]
+    for s_ in pre:
+        if isinstance(s_, ast.Assign) and len(s_.targets) == 1 and isinstance(s_.targets[0], ast.Name) and s_.targets[0].id in names:
+            try:
+                vals[s_.targets[0].id] = interp.eval(s_.value, state, COMPACT)
+            except Exception:
+                vals[s_.targets[0].id] = Unknown("initial value")
+    for nm in names:
+        vals.setdefault(nm, Unknown(f"{nm} has no value before the first iteration"))
+    return vals
+
+
+def freeze(v: Any):
+    if isinstance(v, Lin) and v.is_const():
+        return ("int", v.const)
+    if isinstance(v, bool) or v is None:
+        return ("const", v)
+    if v is NONE:
+        return ("const", None)
+    return ("?", repr(v)[:60])
+
+
+def run_body(interp: Interp, st: Structure, sib_or_cell: Lin, r_hint: int, preset: Optional[Dict[str, Any]] = None) -> List[BodyPath]:
     """One generic iteration of the scan body with the current cell = the given id form."""
     i = Sym("i", 0, None)
     n = Sym("n", 0, None)
@@ -250,6 +365,8 @@ def run_body(interp: Interp, st: Structure, sib_or_cell: Lin, r_hint: int) -> Li
     env[st.result] = res
     env[st.flag] = False
     env[st.param] = GenericList("input")
+    for k, v in (preset or {}).items():
+        env[k] = v
     state.frames = [env]
     saved = interp.unroll_ranges
     interp.unroll_ranges = 16
@@ -266,7 +383,9 @@ def run_body(interp: Interp, st: Structure, sib_or_cell: Lin, r_hint: int) -> Li
         appended = [sg.elem for sg in r2.segs] if isinstance(r2, ListV) and not r2.unknown else [Unknown("result list")]
         idx2 = e2.get(st.idx)
         adv = (idx2 - Lin.of(i)) if isinstance(idx2, Lin) else Unknown("index")
-        paths.append(BodyPath(appended, adv, e2.get(st.flag), [(c, t) for c, t, _ in s2.path], sig, list(s2.effects), list(s2.notes)))
+        bp = BodyPath(appended, adv, e2.get(st.flag), [(c, t) for c, t, _ in s2.path], sig, list(s2.effects), list(s2.notes))
+        bp.carried = {k: e2.get(k) for k in (preset or {})}
+        paths.append(bp)
     return paths
 
 
@@ -287,17 +406,47 @@ def cond_is_position_zero(c: CondV, truth: bool, A: Sym) -> Optional[bool]:
 # 3. order model
 # ---------------------------------------------------------------------------------
 
+def guard_means_strictly_ascending(guard: Optional[str], param: str) -> bool:
+    """`all(a < b for a, b in zip(P, P[1:]))`  (or the index form): every element smaller than its successor"""
+    if guard is None:
+        return False
+    try:
+        e = ast.parse(guard, mode="eval").body
+    except SyntaxError:
+        return False
+    if not (isinstance(e, ast.Call) and isinstance(e.func, ast.Name) and e.func.id == "all" and len(e.args) == 1
+            and isinstance(e.args[0], (ast.GeneratorExp, ast.ListComp)) and len(e.args[0].generators) == 1 and not e.args[0].generators[0].ifs):
+        return False
+    gen = e.args[0].generators[0]
+    elt = e.args[0].elt
+    if not (isinstance(elt, ast.Compare) and len(elt.ops) == 1 and isinstance(elt.ops[0], ast.Lt)):
+        return False
+    l, r = core.src(elt.left).replace(" ", ""), core.src(elt.comparators[0]).replace(" ", "")
+    it = core.src(gen.iter).replace(" ", "")
+    if isinstance(gen.target, ast.Tuple) and len(gen.target.elts) == 2 and it == f"zip({param},{param}[1:])":
+        a, b = (core.src(x) for x in gen.target.elts)
+        return (l, r) == (a, b)
+    if isinstance(gen.target, ast.Name):
+        i = gen.target.id
+        if it == f"range(len({param})-1)":
+            return (l, r) == (f"{param}[{i}]", f"{param}[{i}+1]")
+        if it == f"range(1,len({param}))":
+            return (l, r) == (f"{param}[{i}-1]", f"{param}[{i}]")
+    return False
+
+
 class OrderModel:
-    def __init__(self, interp: Interp, st: Structure, ids: Dict[int, Optional[Lin]], consts: Consts):
+    def __init__(self, interp: Interp, st: Structure, ids: Dict[int, Optional[Lin]], consts: Consts, key_fn: Any = "from-structure"):
         self.interp, self.st, self.ids, self.consts = interp, st, ids, consts
         self.key_problem: Optional[str] = None
+        self.key_fn = st.key_fn if key_fn == "from-structure" else key_fn
 
     def K(self, y: Lin) -> Optional[Lin]:
         """sort key of an id form (identity when sorted() has no key function)"""
-        if self.st.key_fn is None:
+        if self.key_fn is None:
             return y
         try:
-            outs = self.interp.run_function(COMPACT, self.st.key_fn, [y])
+            outs = self.interp.run_function(COMPACT, self.key_fn, [y])
         except core.AnalysisError as e:
             self.key_problem = str(e)
             return None
